@@ -105,7 +105,7 @@ func RunC07Bytes(c *Ctx) {
 	for _, name := range ws {
 		w := worlds.Get(name)
 		for i := range w.Menu {
-			if w.Menu[i].Replay == 0 && w.Menu[i].FixedBytes == nil {
+			if w.Menu[i].Replay == 0 && !w.Menu[i].StealSig && w.Menu[i].FixedBytes == nil {
 				jobs = append(jobs, job{name, i})
 			}
 		}
